@@ -699,20 +699,20 @@ where
 pub(crate) const fn __bytes_find(left: &[u8], pattern: &[u8]) -> Option<usize> {
     let mut matching = pattern;
 
-    crate::for_range! {i in 0..left.len() =>
+    let mut i = 0;
+
+    while i < left.len() {
         match matching {
             [mb, m_rem @ ..] => {
-                let b = left[i];
-
-                matching = if b == *mb {
-                    m_rem
+                if left[i] == *mb {
+                    matching = m_rem;
+                    i += 1;
                 } else {
-                    match pattern {
-                        // For when the string is "lawlawn" and we are trying to find "lawn"
-                        [mb2, m_rem2 @ ..] if b == *mb2 => m_rem2,
-                        _ => pattern,
-                    }
-                };
+                    // For when the string is "aaab" and we are trying to find "aab":
+                    // retry one byte after where the failed match started.
+                    i = i - (pattern.len() - matching.len()) + 1;
+                    matching = pattern;
+                }
             }
             [] => {
                 return Some(i - pattern.len())
@@ -786,23 +786,19 @@ pub(crate) const fn __bytes_rfind(left: &[u8], pattern: &[u8]) -> Option<usize> 
     let mut i = llen;
 
     while i != 0 {
-        i -= 1;
-
         match matching {
             [m_rem @ .., mb] => {
-                let b = left[i];
-
-                matching = if b == *mb {
-                    m_rem
+                if left[i - 1] == *mb {
+                    matching = m_rem;
+                    i -= 1;
                 } else {
-                    match pattern {
-                        // For when the string is "lawlawn" and we are trying to find "lawn"
-                        [m_rem2 @ .., mb2] if b == *mb2 => m_rem2,
-                        _ => pattern,
-                    }
-                };
+                    // For when the string is "baaa" and we are trying to find "baa":
+                    // retry one byte before where the failed match ended.
+                    i = i + (pattern.len() - matching.len()) - 1;
+                    matching = pattern;
+                }
             }
-            [] => return Some(i + (!pattern.is_empty()) as usize),
+            [] => return Some(i - pattern.is_empty() as usize),
         }
     }
 
@@ -1095,23 +1091,16 @@ macro_rules! byte_find_then {
 
             if let $slice_order!(b, ref rem @ ..) = *$next {
                 if b != mb {
-                    matching = match *$needle {
-                        // For when the string is "lawlawn" and we are skipping "lawn"
-                        $slice_order!(mb2, ref m_rem2 @ ..) if b == mb2 => {
-                            // This is considered used in half of the macro invocations
-                            #[allow(unused_assignments)]
-                            {$this = $next;}
-                            m_rem2
-                        },
-                        _ => {
-                            // This is considered used in half of the macro invocations
-                            #[allow(unused_assignments)]
-                            {$this = rem;}
-                            $needle
-                        },
-                    };
+                    // For when the string is "aaab" and we are skipping "aab":
+                    // retry one byte after where the failed match started.
+                    if let $slice_order!(_first, ref this_rem @ ..) = *$this {
+                        $this = this_rem;
+                    }
+                    matching = $needle;
+                    $next = $this;
+                } else {
+                    $next = rem;
                 }
-                $next = rem;
             } else {
                 return None;
             }
